@@ -1,0 +1,42 @@
+//go:build verif
+
+package consensus
+
+// Add-only accessor for the /verif C03 stream (build tag `verif`): like NewVerifNode, but the
+// recording ticker also reports the duration the state machine asked for (config.Propose /
+// Prevote / Precommit of the round), so that a simulator can order timeouts in virtual time.
+// Nothing here changes behaviour.
+
+import (
+	"time"
+
+	"github.com/tendermint/tendermint/libs/log"
+)
+
+// VerifTimeoutD is a timeout the state machine asked the ticker to schedule, with its duration.
+type VerifTimeoutD struct {
+	VerifTimeout
+	Duration time.Duration
+}
+
+type verifTickerD struct {
+	c  chan timeoutInfo
+	on func(VerifTimeoutD)
+}
+
+func (t *verifTickerD) Start() error             { return nil }
+func (t *verifTickerD) Stop() error              { return nil }
+func (t *verifTickerD) Chan() <-chan timeoutInfo { return t.c }
+func (t *verifTickerD) SetLogger(log.Logger)     {}
+func (t *verifTickerD) ScheduleTimeout(ti timeoutInfo) {
+	if t.on != nil {
+		t.on(VerifTimeoutD{VerifTimeout{ti.Height, ti.Round, ti.Step}, ti.Duration})
+	}
+}
+
+// NewVerifNodeTimed installs a ticker on cs that never fires and reports every ScheduleTimeout
+// call, including the requested duration, to onSchedule (cs must not be started).
+func NewVerifNodeTimed(cs *State, onSchedule func(VerifTimeoutD)) *VerifNode {
+	cs.SetTimeoutTicker(&verifTickerD{c: make(chan timeoutInfo), on: onSchedule})
+	return &VerifNode{cs: cs, height: cs.Height}
+}
